@@ -45,6 +45,8 @@ type Step struct {
 	CID int    `json:"cid,omitempty"` // id of a container created by this step
 	Pos uint64 `json:"pos,omitempty"`
 	End uint64 `json:"end,omitempty"`
+	// Kids: freshly built child containers delivered by the element stream of a batch build
+	Kids []VSpec `json:"kids,omitempty"`
 	OOB uint64 `json:"oob,omitempty"`
 	Sub string `json:"sub,omitempty"` // sub-kind (oob: get|set|insert|remove; iter flavour; crash kind; reget via)
 	K   *VSpec `json:"k,omitempty"`
